@@ -86,6 +86,9 @@ func evalRaw(e *rsx.Env, rq rsx.Req, lookups bool) (bool, bool, string, string) 
 	if o.Panic != "" {
 		return false, true, "panic", "panic: " + o.Panic
 	}
+	if o.Cap.Reentry != "" {
+		return false, true, "context-changed-by-reentry", fmt.Sprintf("%s: set %s request %s (handler %d)", o.Cap.Reentry, rsx.SetString(e.Set), rq, o.Cap.Handler)
+	}
 	if lookups && e.Views != nil {
 		// a read-only transaction and a write transaction holding the same routes uncommitted must
 		// answer like the router (route, tsr flag, parameters of the adjusted match)
